@@ -75,7 +75,7 @@ PROPS["C16"] = dict(
          "through the real Creator; history of 1..30 events from {Logging::addAttribute, Logging::removeAttribute(name), "
          "LOG_ATTRIBUTE in a real nested C++ scope, end of scope, log a message}; messages: every level/class, texts empty / "
          "words / tab / newline / longer than any width, error numbers incl. INT_MIN/INT_MAX, file names with and without "
-         "path, timestamps 1970..2100 biased to day, year and leap-day boundaries, own LogAttributes chain of 0..3 objects "
+         "path, timestamps 1970..2100 biased to day, year and leap-day boundaries and (half of them) within 18 hours of the previous message of the history; the process time zone is one of six fixed-offset POSIX zones (UTC0, CET-1, EST5, NZST-12, IST-5:30, MART9:30) chosen per case; own LogAttributes chain of 0..3 objects "
          "with add / add<int> / remove(name) / remove-last. Every logged message is rendered twice (LogDestStream with the "
          "Format installed, reached through Logging::log; a second Format called directly) and compared with the "
          "independent renderer. Exhaustive part: every field kind x width {0,3,24} x alignment x separator x stream order "
@@ -86,12 +86,13 @@ PROPS["C16"] = dict(
     require_classes=dict(all=["attr.own_over_global", "attr.own", "attr.global", "attr.undefined", "own.chain", "scope.end",
                               "scope.nested", "scope.shadows_same_name", "global.add", "global.remove", "sep.inserted",
                               "width.left", "width.right", "width.followed_by_plain_field", "fmt.custom",
-                              "fmt.before_other_field", "item.sep", "item.sep_off"]
+                              "fmt.before_other_field", "item.sep", "item.sep_off", "tz.not_utc", "tz.same_utc_day_other_local_day",
+                              "tz.other_utc_day_same_local_day"]
                          + ["item." + k for k in ("const", "date", "time", "time_ms", "time_us", "date_time", "pid", "thread_id",
                                                   "line_nbr", "func_name", "filename", "level", "log_class", "error_nbr",
                                                   "text", "attribute")]),
     assumptions=[
-        "TZ=UTC (set by the driver and again by the harness), C locale; timestamps are passed with LogMsg::setTimestamp(time_t) "
+        "the time zone is set by the harness per case (TZ + tzset) from fixed-offset zones without daylight saving rules, so that the reference renderer needs no C library call (local = UTC + offset); C locale; timestamps are passed with LogMsg::setTimestamp(time_t) "
         "in 0..2100-12-31, never taken from the wall clock, so time_ms/time_us are always 000/000000 (LogMsg has no setter "
         "for a sub-second timestamp)",
         "custom date/time formats come from a fixed vocabulary of locale independent strftime directives and stay far below "
